@@ -77,4 +77,47 @@ CHECKS = {
     },
 }
 
+CHECKS.update({
+    "C05": {
+        "text": "Real scheduler on the deterministic environment: (a) an identical configuration submitted again at an enumerated program position (which job: symbolic), interleaved with a symbolic schedule: same output object, one registered job per distinct configuration, at most one launch of a job that does not fail; (b) an earlier experiment run (symbolic subset of the plan, closed under dependencies) leaves success markers: those jobs are never launched again and end DONE, the others behave as in C06/C07.",
+        "design_ref": "DESIGN.md §3 C05, §8.2",
+        "note": _SCHED_NOTE + " Clause (c) (several schedulers racing on one workspace) is NOT claimed in this round.",
+    },
+    "C11": {
+        "text": "Two consecutive runs of the same plan in one model world: the first scheduler dies (loop, helper threads and inter-process locks vanish, job processes live on) after an enumerated number of delivered events (0..12, the events chosen symbolically); a new process runs the plan again with a symbolic schedule and symbolic exit codes. Oracle: final states equal the no-crash reference, every successful job was launched exactly once over both runs, no job is launched while its first process is alive (adoption through the pid file), the second run terminates.",
+        "design_ref": "DESIGN.md §3 C11, §8.2",
+        "note": _SCHED_NOTE + " The job process is the simplified model (marker + lock release atomically at exit); the real TaskRunner under death is C10's subject. OS behaviour (children surviving the parent, process groups) is outside.",
+    },
+    "C13": {
+        "text": "Symbolic execution of the real FromPython walk / ObjectStore / fromParameters / load_objects(as_instance=True) on 19 skeletons (sharing, cycles, parameter-less nodes, the same pre-task attached at several nodes, init tasks): one instance per reachable configuration, wired like the graph (isomorphism check), __post_init__ exactly once per instance with all parameters set, every pre-task executed exactly once, init tasks once each after the pre-tasks and before the body; each conversion is done twice in the same process to expose state kept between loads.",
+        "design_ref": "DESIGN.md §3 C13",
+        "note": _IDENT_NOTE + " Recording __post_init__/execute is done by the universe classes (xv/defs).",
+    },
+    "C15": {
+        "text": "For 7 base types x 7 container shapes x {required, Optional}: a candidate value is built from symbolic payloads, conforming or with exactly one constructor replaced at a symbolic depth by one of 11 other kinds; the real Type.validate / Argument.validate / ConfigInformation.set chain must store the coerced value (declared type at every depth, equal to the reference coercion) or raise and store nothing, in agreement with a 15-line reference predicate. Fail-fast: a required value removed at a symbolic position of a task's graph -> submit raises and the scheduler registry, counters, job folder and model OS stay empty.",
+        "design_ref": "DESIGN.md §3 C15, §8.2",
+        "note": "Trusted: CrossHair + z3, the reference predicate. Floats from a menu; replaced constructors carry concrete payloads (error messages would realise them). Outside: Union types other than top-level Optional, GenericType/Any, checkers. One open known finding (None accepted inside a container of configurations) is excluded and reported.",
+    },
+    "C16": {
+        "text": "Histories of runs of one experiment name on the real experiment.__enter__/__exit__/aio_submit code: two consecutive runs (three in thorough), each submitting a subset of the jobs (first run's subset and both endings enumerated per shard, second subset symbolic) and ending normally, by an exception in the block or by the death of the scheduler after a symbolic number of delivered events. Oracle after each run: normal end -> links == jobs of that run, each pointing to its job directory, no jobs.bak; abnormal end -> jobs U jobs.bak covers the last completed plan and the jobs begun since, and the real `orphans` command lists none of them. Exclusivity: a second process entering the same experiment blocks and leaves the indexes untouched.",
+        "design_ref": "DESIGN.md §3 C16",
+        "note": _SCHED_NOTE + " Selectors only (symbolic_data false).",
+    },
+    "C17": {
+        "text": "Real Sealer / PathGenerator / ConfigWalkContext / JobContext through dry-run submissions of a task whose graph carries up to 10 generated parameters (task, nested node and its child, direct value, list members, dict values with keys such as '0', 'child', 'out', a bag of leaves); which positions exist and which share one object are symbolic selectors (first three enumerated per shard). Oracle: every generated path is inside the job directory without '..', all are pairwise distinct, an identical second submission yields the same paths.",
+        "design_ref": "DESIGN.md §3 C17",
+        "note": "Trusted: CrossHair + z3; real sha256 (the job path embeds the identifier; hashed leaves are concrete per path). Selectors only. Outside: generator functions, names with '/', dict keys with '/'.",
+    },
+    "C19": {
+        "text": "Filter semantics: 22 filter texts (=, var=var, in, not in, ~, @state, @name, and/or chains) compiled by the real grammar; the job's tag values (absent or 0..2 symbolic characters), state and name are symbolic; the compiled filter must agree with a reference evaluator of the documented meaning. Commands: the real `jobs clean` (process) and `orphans --clean` callbacks run on scratch workspaces whose job states / index memberships and flags (--perform, --clean, --ignore-old) are symbolic selectors; the set of removed directories must be exactly {finished and selected} if --perform else empty (never a running job), resp. exactly the unreferenced directories.",
+        "design_ref": "DESIGN.md §3 C19",
+        "note": "Trusted: CrossHair's str/regex models and z3; pyparsing on concrete text. Outside: jobs kill, parenthesised filters, --experiment.",
+    },
+    "C20": {
+        "text": "Identifier part: for 10 skeletons and every non-empty subset of {Leaf, Node, Produce, Out} replaced by @deprecate'd subclasses, the hashed streams of all nodes (symbolic leaves) equal those of the graph built with the replacement classes. Repair part: job directories generated by the real GENERATE_ONLY machinery under the former identifier; per job a symbolic earlier-repair state (plain / linked / dangling link / moved), symbolic --fix/--cleanup; the real `deprecated list` command is run twice: data reachable under the new identifier, success marker visible there, multiset of regular files unchanged.",
+        "design_ref": "DESIGN.md §3 C20",
+        "note": _IDENT_NOTE + " The repair part uses real files and the real sha256 (selectors only).",
+    },
+})
+
 NOT_APPLICABLE = {}
